@@ -8,6 +8,8 @@ import (
 	"go/types"
 	"strings"
 
+	"golang.org/x/tools/go/cfg"
+
 	"arkverif/checker/core"
 )
 
@@ -101,11 +103,7 @@ func c03r1(c *core.Ctx) {
 		}
 		for _, mc := range matchCalls {
 			subject := fmt.Sprintf("%s: %s", f.Name, m.ExprString(mc))
-			arg := ast.Unparen(mc.Args[0])
-			if u, ok := arg.(*ast.UnaryExpr); ok {
-				arg = u.X
-			}
-			if fieldKeyOf(m, arg) != "archetype.mask" {
+			if fieldKeyDeep(m, f, mc.Args[0], 0) != "archetype.mask" {
 				c.Violation("C03/R1a", subject, c.At(mc.Pos()), fmt.Sprintf("%s applies the filter to %s, not to an archetype's mask", f.Name, m.ExprString(mc.Args[0])))
 				continue
 			}
@@ -163,225 +161,398 @@ func c03r1(c *core.Ctx) {
 			c.OK("C03/R1b", subject, c.At(is.Pos()), "table 0 of the archetype is selected")
 			return true
 		})
-		// (c) relation tables: list from the per-target index, re-checked with the same relations
-		var gtCalls []*ast.CallExpr
-		core.InspectNoLits(f.Body, func(n ast.Node) bool {
-			if call, ok := n.(*ast.CallExpr); ok {
-				if _, ok := callTo(m, call, sr.getTables); ok {
-					gtCalls = append(gtCalls, call)
-				}
-			}
-			return true
-		})
-		for _, gt := range gtCalls {
-			rel := m.ExprString(gt.Args[0])
-			subject := fmt.Sprintf("%s: tables for %s", f.Name, rel)
-			// where does the list go? a local ranged over in f, or a field later passed to a helper of the same type
-			checked, why := relationRecheck(c, sr, f, gt, rel, isIter(f))
-			if checked {
-				c.OK("C03/R1c", subject, c.At(gt.Pos()), "every table from the per-target index is re-checked against the same relations before use"+why)
-			} else {
-				c.Violation("C03/R1c", subject, c.At(gt.Pos()), fmt.Sprintf("%s: tables obtained from the per-target index for %s are not unconditionally re-checked with Matches(%s) before use%s (the index is keyed by entity id only: a recycled target id or a second relation would select foreign tables)", f.Name, rel, rel, why))
-			}
-		}
-		if len(gtCalls) == 0 && f.Recv != "cache" {
-			c.Violation("C03/R1c", f.Name+": relation archetypes", c.At(f.Pos()), f.Name+": selects tables for a filter but never consults the per-target index for relation archetypes")
-		}
 	}
-	// cached consumers: loops over cacheEntry.tables.tables
+	// (c)+(d): every table taken from a relation-table list (result of the per-target lookup, a cached list, a list
+	// handed in as parameter or kept in a field) is used only after Matches(R) held for it, and - at iteration and
+	// cached sites - after it was found non-empty. Formulated as dominance, so the form of the test does not matter.
 	for _, f := range m.AllFuncs() {
+		if f.Recv == "cache" || f.Recv == "archetype" || f.Recv == "tableIDs" {
+			continue
+		}
+		for _, tv := range relationTableVars(c, sr, f) {
+			needEmpty := isIter(f) || tv.cached
+			okRel, atRel := dominatedUse(c, sr, f, tv, "matches")
+			okEmpty, atEmpty := true, ""
+			if needEmpty {
+				okEmpty, atEmpty = dominatedUse(c, sr, f, tv, "nonempty")
+			}
+			subject := fmt.Sprintf("%s: table %s from %s", f.Name, tv.name, tv.source)
+			switch {
+			case okRel && okEmpty:
+				extra := ""
+				if needEmpty {
+					extra = " and after it was found non-empty"
+				}
+				c.OK("C03/R1c", subject, c.At(tv.def.Pos()), "every use of the table is dominated by Matches("+strings.Join(tv.rels, "|")+")"+extra)
+			case !okRel:
+				c.Violation("C03/R1c", subject, atRel, fmt.Sprintf("%s uses table %s (taken from %s) at %s without a dominating Matches(%s); the per-target index is keyed by entity id only, so a recycled target id or a second relation would select foreign tables", f.Name, tv.name, tv.source, atRel, strings.Join(tv.rels, "|")))
+			default:
+				c.Violation("C03/R1d", subject, atEmpty, fmt.Sprintf("%s uses table %s (taken from %s) at %s without having skipped empty tables", f.Name, tv.name, tv.source, atEmpty))
+			}
+		}
+		// a list obtained from the per-target lookup may only be ranged over, indexed, measured, stored in the query's own
+		// list field or handed to a helper of the same type: anything else uses its tables without the re-check
 		core.InspectNoLits(f.Body, func(n ast.Node) bool {
-			rs, ok := n.(*ast.RangeStmt)
+			as, ok := n.(*ast.AssignStmt)
+			if !ok || len(as.Lhs) != 1 || len(as.Rhs) != 1 {
+				return true
+			}
+			call, ok := ast.Unparen(as.Rhs[0]).(*ast.CallExpr)
 			if !ok {
 				return true
 			}
-			p := m.AccessPath(f, rs.X)
-			if !p.Has("cacheEntry.tables") {
+			if _, isGT := callTo(m, call, sr.getTables); !isGT {
 				return true
 			}
-			if f.Recv == "cache" {
-				return true // maintenance of the cache itself
+			id, ok := as.Lhs[0].(*ast.Ident)
+			if !ok {
+				return true
 			}
-			subject := f.Name + ": cached table list"
-			relExpr := ""
-			if rp := relationIDsParam(f); rp != nil {
-				relExpr = rp.Name()
-			} else if strings.HasPrefix(f.Recv, "Query") {
-				relExpr = "q.relations"
-			}
-			if f.Sig != nil {
-				for i := 0; i < f.Sig.Params().Len(); i++ {
-					if isPtrTo(f.Sig.Params().At(i).Type(), "Batch") {
-						relExpr = f.Sig.Params().At(i).Name() + ".relations"
+			obj := m.Info.ObjectOf(id)
+			escape := ""
+			var parents []ast.Node
+			ast.Inspect(f.Body, func(x ast.Node) bool {
+				if x == nil {
+					parents = parents[:len(parents)-1]
+					return false
+				}
+				if uid, isID := x.(*ast.Ident); isID && uid != id && m.Info.ObjectOf(uid) == obj && len(parents) > 0 {
+					switch p := parents[len(parents)-1].(type) {
+					case *ast.RangeStmt:
+						if p.X != ast.Expr(uid) {
+							escape = c.At(uid.Pos())
+						}
+					case *ast.IndexExpr:
+						if p.X != ast.Expr(uid) {
+							escape = c.At(uid.Pos())
+						}
+					case *ast.CallExpr:
+						if !m.IsBuiltin(p, "len") {
+							escape = c.At(uid.Pos())
+						}
+					default:
+						escape = c.At(uid.Pos())
 					}
 				}
-			}
-			okEmpty, okRel := loopSkips(c, sr, f, rs.Body, relExpr)
-			if okEmpty && okRel {
-				c.OK("C03/R1d", subject, c.At(rs.Pos()), "cached tables are re-checked for emptiness and against the per-call relations "+relExpr)
+				parents = append(parents, x)
+				return true
+			})
+			subject := fmt.Sprintf("%s: list %s from the per-target lookup", f.Name, id.Name)
+			if escape == "" {
+				c.OK("C03/R1c", subject, c.At(as.Pos()), "the list is only ranged over, indexed or measured; its tables are re-checked one by one")
 			} else {
-				c.Violation("C03/R1d", subject, c.At(rs.Pos()), fmt.Sprintf("%s uses cached tables without unconditionally skipping empty tables (%v) and tables not matching the per-call relations %s (%v)", f.Name, okEmpty, relExpr, okRel))
+				c.Violation("C03/R1c", subject, escape, fmt.Sprintf("%s uses the whole list %s from the per-target lookup at %s without re-checking its tables against the relations (the lookup is keyed by the first relation's entity id only)", f.Name, id.Name, escape))
 			}
 			return true
 		})
-	}
-	// helpers that receive the table list as parameter (QueryN.nextTable): same skip conditions
-	for _, f := range m.Funcs {
-		if !isIter(f) || f.Sig == nil {
-			continue
-		}
-		for i := 0; i < f.Sig.Params().Len(); i++ {
-			if sl, ok := f.Sig.Params().At(i).Type().(*types.Slice); ok && core.NamedName(sl.Elem()) == "tableID" {
-				subject := f.Name + ": table list parameter"
-				okEmpty, okRel := loopSkips(c, sr, f, f.Body, "q.relations")
-				if okEmpty && okRel {
-					c.OK("C03/R1d", subject, c.At(f.Pos()), "tables of the list are skipped when empty or not matching the query's relations")
-				} else {
-					c.Violation("C03/R1d", subject, c.At(f.Pos()), fmt.Sprintf("%s advances through a table list without unconditionally skipping empty tables (%v) and tables not matching q.relations (%v)", f.Name, okEmpty, okRel))
-				}
-			}
-		}
-	}
-	// UnsafeQuery.nextTable has no list parameter (uses q.tables)
-	for _, f := range m.Funcs {
-		if f.Recv != "UnsafeQuery" || f.Sig == nil || !returnsBool(f) || f.Sig.Params().Len() != 0 {
-			continue
-		}
-		usesList := false
+		// the per-target lookup must be made with the relations the re-check uses
 		core.InspectNoLits(f.Body, func(n ast.Node) bool {
-			if ix, ok := n.(*ast.IndexExpr); ok && fieldKeyOf(m, ix.X) == "UnsafeQuery.tables" {
-				usesList = true
-			}
-			return true
-		})
-		if !usesList {
-			continue
-		}
-		subject := f.Name + ": table list field"
-		okEmpty, okRel := loopSkips(c, sr, f, f.Body, "q.relations")
-		if okEmpty && okRel {
-			c.OK("C03/R1d", subject, c.At(f.Pos()), "tables of the list are skipped when empty or not matching the query's relations")
-		} else {
-			c.Violation("C03/R1d", subject, c.At(f.Pos()), fmt.Sprintf("%s advances through the table list without unconditionally skipping empty tables (%v) and tables not matching q.relations (%v)", f.Name, okEmpty, okRel))
-		}
-	}
-}
-
-// loopSkips reports whether, somewhere in body, a top-level-of-its-loop `continue` condition is implied false only if
-// the table is non-empty (okEmpty) and matches relExpr (okRel).
-func loopSkips(c *core.Ctx, sr *selRoles, f *core.Func, body ast.Node, relExpr string) (okEmpty, okRel bool) {
-	m := c.M
-	ast.Inspect(body, func(n ast.Node) bool {
-		if _, ok := n.(*ast.FuncLit); ok {
-			return false
-		}
-		is, ok := n.(*ast.IfStmt)
-		if !ok || len(is.Body.List) != 1 {
-			return true
-		}
-		if br, ok := is.Body.List[0].(*ast.BranchStmt); !ok || br.Tok != token.CONTINUE {
-			return true
-		}
-		for _, a := range core.Assume(is.Cond, false) {
-			e := ast.Unparen(a.Expr)
-			if call, ok := e.(*ast.CallExpr); ok && a.Truth {
-				if _, ok := callTo(m, call, sr.tMatches); ok && len(call.Args) == 1 && (relExpr == "" || m.ExprString(call.Args[0]) == relExpr) {
-					okRel = true
-				}
-			}
-			if be, ok := e.(*ast.BinaryExpr); ok && !a.Truth && be.Op == token.EQL {
-				// table.len == 0 / table.Len() == 0 known false
-				l := m.ExprString(be.X)
-				if (strings.HasSuffix(l, ".len") || strings.HasSuffix(l, ".Len()")) && m.ExprString(be.Y) == "0" {
-					okEmpty = true
-				}
-			}
-		}
-		return true
-	})
-	return
-}
-
-// relationRecheck decides rule (c) for one GetTables call.
-func relationRecheck(c *core.Ctx, sr *selRoles, f *core.Func, gt *ast.CallExpr, rel string, iter bool) (bool, string) {
-	m := c.M
-	// find the assignment target of the call
-	var target ast.Expr
-	core.InspectNoLits(f.Body, func(n ast.Node) bool {
-		if as, ok := n.(*ast.AssignStmt); ok {
-			for i, r := range as.Rhs {
-				if ast.Unparen(r) == ast.Node(gt) && i < len(as.Lhs) {
-					target = as.Lhs[i]
-				}
-			}
-		}
-		return true
-	})
-	if target == nil {
-		return false, " (result not bound)"
-	}
-	ts := m.ExprString(target)
-	// case 1: a local list: every use must be the operand of a range loop that re-checks
-	if id, isID := ast.Unparen(target).(*ast.Ident); isID {
-		obj := m.Info.ObjectOf(id)
-		rangeOperand := map[*ast.Ident]bool{}
-		found, ok := false, true
-		core.InspectNoLits(f.Body, func(n ast.Node) bool {
-			if rs, isR := n.(*ast.RangeStmt); isR {
-				if rid, isI := ast.Unparen(rs.X).(*ast.Ident); isI && m.Info.ObjectOf(rid) == obj {
-					found = true
-					rangeOperand[rid] = true
-					if _, okRel := loopSkips(c, sr, f, rs.Body, rel); !okRel {
-						ok = false
+			if call, ok := n.(*ast.CallExpr); ok {
+				if _, ok := callTo(m, call, sr.getTables); ok {
+					rel := m.ExprString(call.Args[0])
+					want := relationExprs(m, f)
+					subject := fmt.Sprintf("%s: per-target lookup with %s", f.Name, rel)
+					if want[rel] {
+						c.OK("C03/R1c", subject, c.At(call.Pos()), "lookup uses the relations of the query / batch / filter")
+					} else {
+						c.Violation("C03/R1c", subject, c.At(call.Pos()), fmt.Sprintf("%s looks up relation tables with %s, which is not the relation list that the re-check uses (%v)", f.Name, rel, keysOf(want)))
 					}
 				}
 			}
 			return true
 		})
-		other := ""
-		core.InspectNoLits(f.Body, func(n ast.Node) bool {
-			if uid, isI := n.(*ast.Ident); isI && uid != id && m.Info.ObjectOf(uid) == obj && !rangeOperand[uid] {
-				other = c.At(uid.Pos())
+	}
+}
+
+// relationExprs: the expressions that denote "the relations of this selection" inside f.
+func relationExprs(m *core.Model, f *core.Func) map[string]bool {
+	out := map[string]bool{}
+	if rp := relationIDsParam(f); rp != nil {
+		out[rp.Name()] = true
+	}
+	if f.Sig != nil {
+		for i := 0; i < f.Sig.Params().Len(); i++ {
+			if isPtrTo(f.Sig.Params().At(i).Type(), "Batch") {
+				out[f.Sig.Params().At(i).Name()+".relations"] = true
 			}
+		}
+		if r := f.Sig.Recv(); r != nil && (strings.HasPrefix(f.Recv, "Query") || f.Recv == "UnsafeQuery") {
+			out[r.Name()+".relations"] = true
+		}
+	}
+	// cache entries carry their own relations
+	core.InspectNoLits(f.Body, func(n ast.Node) bool {
+		if sel, ok := n.(*ast.SelectorExpr); ok && fieldKeyOf(m, sel) == "cacheEntry.relations" {
+			out[m.ExprString(sel)] = true
+		}
+		return true
+	})
+	return out
+}
+
+type relTableVar struct {
+	name   string
+	v      *types.Var   // the *table variable (or nil)
+	idVar  *types.Var   // the table id variable of a range loop (or nil)
+	def    ast.Node     // definition of v (assignment) or the range statement
+	rng    *ast.RangeStmt
+	source string
+	cached bool
+	rels   []string
+}
+
+// relationTableVars finds the table variables of f that are taken from a relation-table list.
+func relationTableVars(c *core.Ctx, sr *selRoles, f *core.Func) []relTableVar {
+	m := c.M
+	var out []relTableVar
+	rels := keysOf(relationExprs(m, f))
+	if len(rels) == 0 {
+		return nil // not a selection context: no relations to re-check against
+	}
+	// list sources
+	isListExpr := func(e ast.Expr, depth int) (string, bool, bool) { return "", false, false }
+	var listOf func(e ast.Expr, depth int) (string, bool, bool)
+	listOf = func(e ast.Expr, depth int) (src string, cached bool, ok bool) {
+		if depth > 3 || e == nil {
+			return "", false, false
+		}
+		e = ast.Unparen(e)
+		if p := m.AccessPath(f, e); p.Has("cacheEntry.tables") {
+			return "the cached table list", true, true
+		}
+		if call, isCall := e.(*ast.CallExpr); isCall {
+			if _, isGT := callTo(m, call, sr.getTables); isGT {
+				return "the per-target lookup", false, true
+			}
+		}
+		if k := fieldKeyOf(m, e); strings.HasSuffix(k, ".tables") && (strings.HasPrefix(k, "Query") || strings.HasPrefix(k, "UnsafeQuery")) {
+			return "the query's table list", false, true
+		}
+		if id, isID := e.(*ast.Ident); isID {
+			if v, isVar := m.Info.ObjectOf(id).(*types.Var); isVar && !v.IsField() {
+				if sl, isSl := v.Type().(*types.Slice); isSl && core.NamedName(sl.Elem()) == "tableID" {
+					if _, isP := paramIndexOf(f, v); isP {
+						return "the table list parameter " + v.Name(), strings.HasPrefix(f.Recv, "Query"), true
+					}
+					for _, d := range localDefsOf(m, f, v) {
+						if s2, c2, ok2 := listOf(d, depth+1); ok2 {
+							return s2, c2, true
+						}
+					}
+				}
+			}
+		}
+		return "", false, false
+	}
+	_ = isListExpr
+	// range loops over a list: the value variable is a table id
+	idSource := map[*types.Var]string{}
+	idCached := map[*types.Var]bool{}
+	core.InspectNoLits(f.Body, func(n ast.Node) bool {
+		rs, ok := n.(*ast.RangeStmt)
+		if !ok || rs.Value == nil {
 			return true
-		})
-		if other != "" {
-			return false, " (the list is also used without re-check at " + other + ")"
+		}
+		src, cached, ok := listOf(rs.X, 0)
+		if !ok {
+			return true
+		}
+		if id, ok := rs.Value.(*ast.Ident); ok {
+			if v, ok := m.Info.ObjectOf(id).(*types.Var); ok {
+				idSource[v], idCached[v] = src, cached
+				out = append(out, relTableVar{name: v.Name(), idVar: v, def: rs, rng: rs, source: src, cached: cached, rels: rels})
+			}
+		}
+		return true
+	})
+	// table pointers defined as &X.tables[IDX] with IDX from a list (element of a list, or a range id variable)
+	core.InspectNoLits(f.Body, func(n ast.Node) bool {
+		as, ok := n.(*ast.AssignStmt)
+		if !ok || len(as.Lhs) != 1 || len(as.Rhs) != 1 {
+			return true
+		}
+		id, ok := as.Lhs[0].(*ast.Ident)
+		if !ok {
+			return true
+		}
+		v, ok := m.Info.ObjectOf(id).(*types.Var)
+		if !ok || !isPtrTo(v.Type(), "table") {
+			return true
+		}
+		rhs := ast.Unparen(as.Rhs[0])
+		if u, ok := rhs.(*ast.UnaryExpr); ok {
+			rhs = ast.Unparen(u.X)
+		}
+		ix, ok := rhs.(*ast.IndexExpr)
+		if !ok || fieldKeyOf(m, ix.X) != "storage.tables" {
+			return true
+		}
+		idx := ast.Unparen(ix.Index)
+		src, cached, found := "", false, false
+		switch y := idx.(type) {
+		case *ast.Ident:
+			if iv, ok := m.Info.ObjectOf(y).(*types.Var); ok {
+				if s2, ok := idSource[iv]; ok {
+					src, cached, found = s2, idCached[iv], true
+					// fold into the range entry: same protection applies to the pointer
+					for k := range out {
+						if out[k].idVar == iv && out[k].v == nil {
+							out[k].v = v
+							out[k].name = v.Name()
+						}
+					}
+					return true
+				}
+			}
+		case *ast.IndexExpr:
+			src, cached, found = listOf(y.X, 0)
 		}
 		if found {
-			return ok, ""
+			out = append(out, relTableVar{name: v.Name(), v: v, def: as, source: src, cached: cached, rels: rels})
 		}
+		return true
+	})
+	return out
+}
+
+// dominatedUse decides whether every use of the table variable is dominated by the given guard ("matches" / "nonempty").
+func dominatedUse(c *core.Ctx, sr *selRoles, f *core.Func, tv relTableVar, kind string) (bool, string) {
+	m := c.M
+	isT := func(e ast.Expr) bool {
+		id, ok := ast.Unparen(e).(*ast.Ident)
+		if !ok {
+			return false
+		}
+		o := m.Info.ObjectOf(id)
+		return (tv.v != nil && o == tv.v) || (tv.idVar != nil && o == tv.idVar)
 	}
-	// case 2: stored in a field and handed to a helper method of the same receiver (q.tables -> q.nextTable(q.tables))
-	if _, isSel := ast.Unparen(target).(*ast.SelectorExpr); isSel {
-		helperOK := false
-		core.InspectNoLits(f.Body, func(n ast.Node) bool {
-			call, isCall := n.(*ast.CallExpr)
-			if !isCall {
-				return true
-			}
-			k, cal, _ := m.Callee(call)
-			if k != core.CallStatic || cal.Recv != f.Recv {
-				return true
-			}
-			passes := len(call.Args) == 0
-			for _, a := range call.Args {
-				if m.ExprString(a) == ts {
-					passes = true
-				}
-			}
-			if !passes || !returnsBool(cal) {
-				return true
-			}
-			okEmpty, okRel := loopSkips(c, sr, cal, cal.Body, rel)
-			if okRel && (!iter || okEmpty) {
-				helperOK = true
+	// identifiers that are part of a guard, of the definition or of the derivation of the pointer from the id
+	exempt := map[*ast.Ident]bool{}
+	markAll := func(n ast.Node) {
+		ast.Inspect(n, func(x ast.Node) bool {
+			if id, ok := x.(*ast.Ident); ok {
+				exempt[id] = true
 			}
 			return true
 		})
-		return helperOK, " (list handed to a helper of the same type)"
 	}
-	return false, ""
+	core.InspectNoLits(f.Body, func(n ast.Node) bool {
+		switch x := n.(type) {
+		case *ast.CallExpr:
+			if rv, ok := callTo(m, x, sr.tMatches); ok && rv != nil && isT(rv) {
+				markAll(rv)
+			}
+			if sel, ok := ast.Unparen(x.Fun).(*ast.SelectorExpr); ok && isT(sel.X) && len(x.Args) == 0 && x.Fun != nil {
+				// T.Len() inside a comparison with 0 is a guard operand; handled at the comparison
+			}
+		case *ast.BinaryExpr:
+			l := m.ExprString(x.X)
+			if (strings.HasSuffix(l, ".len") || strings.HasSuffix(l, ".Len()")) && m.ExprString(x.Y) == "0" {
+				markAll(x.X)
+			}
+		case *ast.AssignStmt:
+			if n == tv.def {
+				markAll(x)
+			}
+			// derivation table := &tables[tab]
+			if tv.idVar != nil && len(x.Lhs) == 1 {
+				if id, ok := x.Lhs[0].(*ast.Ident); ok && tv.v != nil && m.Info.ObjectOf(id) == tv.v {
+					markAll(x)
+				}
+			}
+		case *ast.RangeStmt:
+			if x == tv.rng {
+				if id, ok := x.Value.(*ast.Ident); ok {
+					exempt[id] = true
+				}
+			}
+		}
+		return true
+	})
+	guardAtom := func(at core.Atom) bool {
+		e := ast.Unparen(at.Expr)
+		switch kind {
+		case "matches":
+			call, ok := e.(*ast.CallExpr)
+			if !ok || !at.Truth {
+				return false
+			}
+			rv, ok := callTo(m, call, sr.tMatches)
+			if !ok || rv == nil || !isT(rv) || len(call.Args) != 1 {
+				return false
+			}
+			for _, r := range tv.rels {
+				if m.ExprString(call.Args[0]) == r {
+					return true
+				}
+			}
+			return false
+		case "nonempty":
+			be, ok := e.(*ast.BinaryExpr)
+			if !ok || m.ExprString(be.Y) != "0" {
+				return false
+			}
+			l := ast.Unparen(be.X)
+			base := ""
+			switch y := l.(type) {
+			case *ast.SelectorExpr:
+				base = m.ExprString(y.X)
+			case *ast.CallExpr:
+				if sel, ok := ast.Unparen(y.Fun).(*ast.SelectorExpr); ok {
+					base = m.ExprString(sel.X)
+				}
+			}
+			if tv.v == nil || base != tv.v.Name() {
+				return false
+			}
+			op := be.Op.String()
+			return (op == "==" && !at.Truth) || (op == ">" && at.Truth) || (op == "!=" && at.Truth)
+		}
+		return false
+	}
+	g := m.CFG(f)
+	firstBad := ""
+	transfer := func(s bool, n ast.Node, report bool) bool {
+		core.WalkEval(n, func(x ast.Node, cond bool) {
+			if x == tv.def {
+				s = false // a new table is taken: the guard has to be established again
+			}
+			if id, ok := x.(*ast.Ident); ok && report && !s && !exempt[id] && isT(id) && firstBad == "" {
+				firstBad = c.At(id.Pos())
+			}
+		})
+		return s
+	}
+	flow := core.Flow[bool]{
+		Entry: false,
+		Join:  func(a, b bool) bool { return a && b },
+		Equal: func(a, b bool) bool { return a == b },
+		Node:  func(s bool, _ *cfg.Block, n ast.Node) bool { return transfer(s, n, false) },
+		Edge: func(s bool, b *cfg.Block, succ int) (bool, bool) {
+			if tv.rng != nil && b.Kind == cfg.KindRangeLoop && b.Stmt == ast.Stmt(tv.rng) {
+				return false, true // next element of the list
+			}
+			if cnd := core.BlockCond(b); cnd != nil {
+				for _, a := range core.Assume(cnd, succ == 0) {
+					if guardAtom(a) {
+						return true, true
+					}
+				}
+			}
+			return s, true
+		},
+	}
+	fr := core.Forward(g, flow)
+	for _, b := range g.Blocks {
+		if !fr.Reached[b] {
+			continue
+		}
+		st := fr.In[b]
+		for _, n := range b.Nodes {
+			st = transfer(st, n, true)
+		}
+	}
+	return firstBad == "", firstBad
 }
 
 // c03r2: the rare-component preselection list is a superset.
